@@ -350,12 +350,13 @@ def route_groups(draw, session, near_limit: bool, announce: bool):
         budget = 40 if msg_size_of(session) == 65535 else 150
     else:
         budget = draw(st.sampled_from([20, 200, 600, MAX_ROUTES]))
-    ngroups = draw(st.sampled_from([0, 1, 1, 2, 3, 4] if announce else [0, 0, 1, 1, 2, 3]))
+    ngroups = draw(st.sampled_from([0, 1, 1, 2, 2, 3, 4] if announce else [0, 0, 1, 1, 1, 2, 3]))
     out = []
     for _ in range(ngroups):
         if budget <= 0:
             break
-        afi, safi = draw(st.sampled_from(FAMILIES + [(1, 1), (2, 1)]))
+        # mostly families the peer offered; the others must simply stay off the wire
+        afi, safi = draw(st.sampled_from(negotiated_families(session) * 3 + FAMILIES))
         count = min(budget, draw(st.sampled_from([1, 2, 3, 9, 40, 150, 400, 400, 1500])))
         budget -= count
         mix = draw(st.integers(0, 5))
